@@ -79,7 +79,7 @@ def run(ctx):
     if err:
         ctx.violation('translator of the yyless() macros gave up: ' + err, {'error': err}, no_input=True)
     q1, q2, q3 = {'quick': (64, 48, 32), 'thorough': (600, 400, 200)}[ctx.tier]
-    plan = [('lineno', q1, 8), ('reject', q3, 4), ('unput', q3, 4)]
+    plan = [('lineno', q1, 8), ('reject', q3, 4), ('unput', q3, 4), ('morenl', q3, 6)]
     return rtprop.run(ctx, THEOREMS + ['FlexVerif.C08YYLess.ln_loop', 'FlexVerif.C08YYLess.less_action_spec', 'FlexVerif.C08YYLess.less_section3_spec'], plan, 'proof',
                       'yylineno logged at every action and compared with the abstract count; rules matching newline via classes, negated classes, (?s:.), default rule, trailing context; with less/unput/input/more/REJECT; per generated program the emitted yy_rule_can_match_eol is compared with Re.canNl, which by the kernel-checked canNl_iff holds exactly when the rule matches some text containing a newline (the flag must be set for every such rule)' + '. Kernel-checked theorems about the abstract scanner (listed under obligations) + differential '
                       'correspondence of the real generated scanner (ASan/UBSan build) with that model on generated cases.',
